@@ -160,7 +160,7 @@ func (c *checkCtx) instantiationsFor(fn *ssa.Function, short string, used map[st
 		}
 	}
 	for _, ts := range used[short] {
-		if objParam >= 0 {
+		if objParam >= 0 && c.prop != "C10" {
 			// message-part element types: verified once with the element type abstract
 			add(ts[:objParam])
 		} else {
@@ -453,6 +453,9 @@ func (c *checkCtx) plan() bool {
 			"WriteFixedStringListWithPadding", "WriteFixedStringListWithPaddingLE", "WriteFixedStringList", "WriteFixedStringListLE",
 			"ReadFixedStringListTrimPadding", "ReadFixedStringListTrimPaddingLE", "ReadFixedStringList", "ReadFixedStringListLE"}, nil)
 		c.lemmaTask("flat_snoc")
+		// every fixed-width field of every message uses its pinned width, pad byte and pad side, in both directions
+		V.tableMode = "pinned"
+		c.msgTask("ok", "layout", "rt")
 	case "C14":
 		c.codecTask([]string{"(*Crc16ChecksumService).Calc", "(*Crc32ChecksumService).Calc", "(*SseBinChecksumService).Calc", "(*SzseBinChecksumService).Calc",
 			"(*Crc16ChecksumService).Algorithm", "(*Crc32ChecksumService).Algorithm", "(*SseBinChecksumService).Algorithm", "(*SzseBinChecksumService).Algorithm"}, nil)
